@@ -593,6 +593,9 @@ class NetlistMixin(object):
             del self.node_map
         except:
             pass
+        # Memoised by the components and sim properties
+        for attr in ('_components', '_sim'):
+            self.__dict__.pop(attr, None)
 
     def _kill(self, sourcenames):
 
